@@ -726,7 +726,46 @@ class Evaluator:
                     killers = [m for m, _ in defs if m != d and m != at.id and m in self._fwd_reach(d) and at.id in self._fwd_reach(m)]
                     g = self._bool("and", [execs[d]] + [self._not(execs[m]) for m in killers])
             alts.append((g, t))
+        if self.exact and getattr(at, "stmt", None) is not None:
+            # the alternatives are only ever looked at where the name is used: whatever holds on every path to that statement
+            # (its enclosing branches and survived guards) need not be repeated in the gates - `if c: x = [x]` inside a branch
+            # B and the same two lines moved into a helper (where B is no longer visible) give one value
+            try:
+                facts = self._conjuncts(self._stmt_reach_term(at.stmt))
+            except AnalysisError:
+                facts = []
+            if facts:
+                alts = [(self._simplify_under(g, facts), t) for g, t in alts]
         return self._mk_gphi(alts, typ)
+
+    def _conjuncts(self, t):
+        h = self.ctx.head_of(t)
+        if h and h[0] == "and":
+            out = []
+            for x in self.ctx.args_of(t):
+                out += self._conjuncts(x)
+            return out
+        if h and h[0] == "const" and h[1] is True:
+            return []
+        return [t]
+
+    def _simplify_under(self, g, facts, depth=0):
+        """g with every sub-condition that is one of `facts` (or the negation of one) replaced by its truth value"""
+        c = self.ctx
+        if depth > 12:
+            return g
+        if any(c.eq(g, f) for f in facts):
+            return c.mk(("const", True))
+        ng = self._not(g)
+        if any(c.eq(ng, f) for f in facts):
+            return c.mk(("const", False))
+        h = c.head_of(g)
+        if h and h[0] in ("and", "or"):
+            parts = [self._simplify_under(x, facts, depth + 1) for x in c.args_of(g)]
+            return self._bool(h[0], parts)
+        if h and h[0] == "not":
+            return self._not(self._simplify_under(c.args_of(g)[0], facts, depth + 1))
+        return g
 
     def _mk_gphi(self, alts, typ=None):
         c = self.ctx
@@ -1021,6 +1060,10 @@ class Evaluator:
             ar = self.ctx.args_of(it)
             if self.ctx.head_of(ar[1]) == ("gen", 0):
                 return ar[0]
+        if self.exact and h and h[0] == "gphi" and not depth:
+            # the element of "one of several sequences" is "one of their elements" (same gates)
+            ar = self.ctx.args_of(it)
+            return self._mk_gphi([(ar[i], self._each(ar[i + 1])) for i in range(0, len(ar), 2)])
         if self.exact and not depth and self._simple_dictcomp(it) is not None:
             return self._simple_dictcomp(it)[0]
         return self.ctx.mk(("iter", (depth,) if depth else ()), (it,))
@@ -1060,6 +1103,13 @@ class Evaluator:
             if self.exact and self._simple_dictcomp(it) is not None:
                 it = self._simple_dictcomp(it)[2]
                 continue
+            if self.exact and h and h[0] == "gphi":
+                # alternatives that all run over the same thing
+                ar = c.args_of(it)
+                bases = [self._loop_base(ar[i + 1]) for i in range(0, len(ar), 2)]
+                if bases and all(c.eq(bases[0], b_) for b_ in bases[1:]):
+                    it = bases[0]
+                    continue
             b = self._zip_base(it)
             if b is it or c.eq(b, it):
                 break
@@ -1197,7 +1247,21 @@ class Evaluator:
                     parts.append(c.mk(("str", v.value)))
                 else:
                     spec = T(v.format_spec) if v.format_spec is not None else c.mk(("const", None))
-                    parts.append(c.mk(("fmt", v.conversion), (T(v.value), spec)))
+                    val = T(v.value)
+                    hv = c.head_of(val)
+                    if self.exact and v.conversion == -1 and v.format_spec is None and hv and hv[0] == "str":
+                        parts.append(val)           # f"{'k_'}{x}" is f"k_{x}": a formatted string constant is its text
+                    else:
+                        parts.append(c.mk(("fmt", v.conversion), (val, spec)))
+            if self.exact:
+                merged = []
+                for p_ in parts:
+                    hp = c.head_of(p_)
+                    if merged and hp and hp[0] == "str" and (c.head_of(merged[-1]) or ("",))[0] == "str":
+                        merged[-1] = c.mk(("str", c.head_of(merged[-1])[1] + hp[1]))
+                    else:
+                        merged.append(p_)
+                parts = merged
             return c.mk(("fstr",), parts)
         if isinstance(e, ast.Lambda):
             depth = sum(1 for n in self.bound if n.startswith("\x00lam"))
@@ -1291,6 +1355,19 @@ class Evaluator:
             b = x
             if hx and hx[0] == "seqcomp" and hx[1] == 1 and c.head_of(c.args_of(x)[1]) == ("gen", 0):
                 b = c.args_of(c.args_of(x)[1])[0]
+            elif self.exact and hx and hx[0] == "gphi":
+                ar = c.args_of(x)
+                bs = []
+                for i in range(0, len(ar), 2):
+                    y = ar[i + 1]
+                    hy = c.head_of(y)
+                    if hy and hy[0] == "seqcomp" and hy[1] == 1 and c.head_of(c.args_of(y)[1]) == ("gen", 0):
+                        bs.append(c.args_of(c.args_of(y)[1])[0])
+                    else:
+                        bs = []
+                        break
+                if bs and all(c.eq(bs[0], b_) for b_ in bs[1:]):
+                    b = bs[0]
             if base is None:
                 base = b
             elif not c.eq(base, b):
@@ -1640,6 +1717,19 @@ class Evaluator:
             fname = self._fname(fr)
             if fname is None:
                 h = c.head_of(fr)
+                if h and h[0] == "gphi" and self.exact and not star:
+                    # `f = g if c else h; f(x)` is `g(x) if c else h(x)`: the call distributes over the alternatives of the callee
+                    ar = c.args_of(fr)
+                    alts = []
+                    ok = True
+                    for i in range(0, len(ar), 2):
+                        fn_i = self._fname(ar[i + 1])
+                        if fn_i is None:
+                            ok = False
+                            break
+                        alts.append((ar[i], self._func_call(fn_i, list(pos), list(kws), dict(kws), star)))
+                    if ok and alts:
+                        return self._mk_gphi(alts)
                 if h and h[0] == "classof":
                     return self._new(c.type_of(c.args_of(fr)[0]) or "?", pos, kws, base=c.args_of(fr)[0])
                 if h and h[0] == "call" and h[1] == "getattr" and len(c.args_of(fr)) == 2:
@@ -1928,6 +2018,10 @@ class Evaluator:
             mi = self.repo.resolve_method(typ, m)
             if mi is not None and self.repo.is_new_function(mi.qual) and mi.kind == "method":
                 res = self._inline_value(mi, pos, kws, star, recv=recv)
+                if res is not None:
+                    return res
+            if mi is not None and self.repo.is_new_function(mi.qual) and mi.kind == "staticmethod":
+                res = self._inline_value(mi, pos, kws, star)           # self._helper(a, b) on a static helper: no receiver
                 if res is not None:
                     return res
             # classmethod-style constructor via self.__class__ handled in _call; here ordinary methods
